@@ -199,7 +199,9 @@ func (m *Machine) pick(curEnabled bool, exiting bool) {
 			}
 		}
 		if len(list) == 0 {
-			if m.advanceTime() {
+			if m.quiesceWaiter != nil && !m.quiesceWaiter.done && !m.timerBefore(m.quiesceDeadline) {
+				// quiescent: nothing can run and no timer is due within the horizon of the waiting vfQuiesce
+			} else if m.advanceTime() {
 				continue
 			}
 			// quiescence?
@@ -599,4 +601,14 @@ func (m *Machine) settle() {
 		m.pick(true, false)
 	}
 	m.settling = false
+}
+
+// timerBefore: is some timer pending that fires at or before t?
+func (m *Machine) timerBefore(t int64) bool {
+	for _, tm := range m.timers {
+		if !tm.fired && tm.when <= t {
+			return true
+		}
+	}
+	return false
 }
